@@ -36,30 +36,30 @@ CR = "dask/array/creation.py"
 def check(ctx):
     mod = ctx.model.module(CR)
     ar = mod.func("arange")
-    loops = [l for l in walk_no_nested(ar) if isinstance(l, ast.For) and unparse(l.iter) == "enumerate(chunks[0])"]
+    loops = [l for l in walk_no_nested(ar) if isinstance(l, ast.For) and eqv(l.iter, "enumerate(chunks[0])")]
     ctx.count("block_loops", len(loops))
-    ok = len(loops) == 1 and unparse(loops[0].target) == "(i, bs)"
+    ok = len(loops) == 1 and eqv(loops[0].target, "(i, bs)")
     if ok:
         l = loops[0]
-        ok = bool(find("blockstart = start + elem_count * step", l)) and bool(find("blockstop = start + (elem_count + bs) * step", l)) and unparse(l.body[-1]) == "elem_count += bs" and len(find("elem_count += M_x", l)) == 1
+        ok = bool(find("blockstart = start + elem_count * step", l)) and bool(find("blockstop = start + (elem_count + bs) * step", l)) and eqv(l.body[-1], "elem_count += bs") and len(find("elem_count += M_x", l)) == 1
         init = find("elem_count = 0", ar)
         ok = ok and len(init) == 1 and dominates(ar, init[0][0], l) and not in_subtree(init[0][0], l)
     ctx.ob("ABS.arange.tiling", ar, "block i = [start + n_i*step, start + (n_i + bs)*step) with n_i the sum of the earlier block sizes (0 first, += bs last)", ok, "" if ok else "block boundaries are no longer affine in the running element count: blocks overlap, leave gaps or shift")
     ok = bool(find("num = int(max(np.ceil((stop - start) / step), 0))", ar))
     ctx.ob("ABS.arange.length", ar, "num = int(max(ceil((stop - start) / step), 0))", ok)
-    ok = bool(find("chunks = normalize_chunks(chunks, (num,), dtype=dtype)", ar)) and any(unparse(r.value) == "Array(dsk, name, chunks, dtype=dtype, meta=meta)" for r in returns(ar))
+    ok = bool(find("chunks = normalize_chunks(chunks, (num,), dtype=dtype)", ar)) and any(eqv(r.value, "Array(dsk, name, chunks, dtype=dtype, meta=meta)") for r in returns(ar))
     ctx.ob("DELEG.chunks", ar, "arange: chunks normalised against (num,) and declared on the result", ok)
     tasks = [c for c in calls(ar, "Task")]
     ok = len(tasks) == 1 and [unparse(a) for a in tasks[0].args] == ["(name, i)", "partial(chunk.arange, like=meta)", "blockstart", "blockstop", "step", "bs", "dtype"]
     ctx.ob("ABS.arange.task", ar, "Task((name, i), chunk.arange, blockstart, blockstop, step, bs, dtype)", ok)
     swap = find("(start, stop) = (0, start)", ar) or find("start, stop = (0, start)", ar)
-    ok = bool(swap) and any(unparse(e) == "stop is None" and pol for e, pol in cfg_of(ar).facts(swap[0][0]))
+    ok = bool(swap) and any(eqv(e, "stop is None") and pol for e, pol in cfg_of(ar).facts(swap[0][0]))
     ctx.ob("ABS.arange.single-argument", ar, "arange(n) means arange(0, n)", ok)
     # ---------------- linspace
     ls = mod.func("linspace")
-    ok = bool(find("div = num - 1 if endpoint else num", ls)) and bool(find("step = float(range_) / div", ls)) and bool(find("range_ = stop - start", ls)) and any(isinstance(n, ast.If) and unparse(n.test) == "div == 0" and unparse(n.body[0]) == "div = 1" for n in walk_no_nested(ls))
+    ok = bool(find("div = num - 1 if endpoint else num", ls)) and bool(find("step = float(range_) / div", ls)) and bool(find("range_ = stop - start", ls)) and any(isinstance(n, ast.If) and eqv(n.test, "div == 0") and eqv(n.body[0], "div = 1") for n in walk_no_nested(ls))
     ctx.ob("ABS.linspace.step", ls, "step = (stop - start) / (num - 1 if endpoint else num), divisor 0 replaced by 1", ok)
-    loops = [l for l in walk_no_nested(ls) if isinstance(l, ast.For) and unparse(l.iter) == "enumerate(chunks[0])"]
+    loops = [l for l in walk_no_nested(ls) if isinstance(l, ast.For) and eqv(l.iter, "enumerate(chunks[0])")]
     ok = len(loops) == 1
     if ok:
         l = loops[0]
@@ -84,7 +84,7 @@ def check(ctx):
     # ---------------- diag of a 2-d array: the block-diagonal shortcut needs SQUARE diagonal blocks
     dg = mod.func("diag")
     fast = [n for n in ast.walk(dg) if isinstance(n, ast.If) and unparse(n.test).startswith("k == 0 and ")]
-    ok = len(fast) == 1 and unparse(fast[0].test) == "k == 0 and v.chunks[0] == v.chunks[1]" and any(unparse(r.value).startswith("Array(graph, name, (v.chunks[0],)") for r in returns(fast[0]))
+    ok = len(fast) == 1 and eqv(fast[0].test, "k == 0 and v.chunks[0] == v.chunks[1]") and any(unparse(r.value).startswith("Array(graph, name, (v.chunks[0],)") for r in returns(fast[0]))
     ctx.ob("ALG.diag.square-blocks", dg, "np.diag per diagonal block only when row and column chunks are identical; otherwise diagonal(v, k)", ok, "" if ok else "np.diag of a non-square block (i,i) does not hold the main-diagonal elements that fall into blocks (i,j), j != i")
     # ---------------- fromfunction: func receives full coordinate grids like np.fromfunction
     ff = mod.func("fromfunction")
